@@ -20,7 +20,7 @@
 (***************************************************************************)
 EXTENDS CfiSection, TLC, Json, FiniteSets
 LOCAL SE == INSTANCE SequencesExt
-CONSTANTS Fam, MaxTab, FullTab, AgreeTab, MaxLen, Dups
+CONSTANTS Fam, MaxTab, FullTab, AgreeTab, MaxLen, Dups, Slim
 VARIABLE c
 
 B8(n) == N8(n)
@@ -39,7 +39,7 @@ MkFde(fmt, cie, start, len, ins) ==
 
 Concretize(kind, es, secAsz, B) ==
     LET offs == Offsets(kind, es, secAsz) IN
-    [i \in DOMAIN es |->
+    Tup([i \in DOMAIN es |->
         IF es[i].t # "fde" THEN es[i]
         ELSE LET f    == es[i]
                  cc   == es[f.cie]
@@ -48,7 +48,7 @@ Concretize(kind, es, secAsz, B) ==
                  iraw == IF FdeUsesR(cc) THEN RawFor(cc.renc, f.start, B, B8(apos), None) ELSE f.start
                  lpos == apos + Len(FdeAddrBytes(f, cc, asz, TRUE)) + 1
                  lraw == IF FdeUsesL(cc) THEN RawFor(cc.lenc, f.lsda, B, B8(lpos), f.start) ELSE Zero(8)
-             IN [f EXCEPT !.iraw = iraw, !.lraw = lraw]]
+             IN [f EXCEPT !.iraw = iraw, !.lraw = lraw]])
 
 (*--------------------------- expectations ---------------------------------*)
 Inc(a) == Add8(a, One(8))
@@ -128,7 +128,7 @@ Emit(x) == PrintT(<<"CASE", ToJson(x)>>)
 
 (*=============================== "bs" =====================================*)
 (* tables over 0..12; c.locs strictly increasing (or non-decreasing when Dups) *)
-BsLocs(l) == [i \in DOMAIN l |-> B8(l[i])]
+BsLocs(l) == Tup([i \in DOMAIN l |-> B8(l[i])])
 BsInit == c = [locs |-> <<>>]
 BsNext == /\ Len(c.locs) < MaxTab
           /\ \E x \in 0..12 :
@@ -152,7 +152,7 @@ BsLen(l, i, pat) ==
       [] pat = 2 -> gap
       [] pat = 3 -> IF i % 2 = 1 THEN gap ELSE 1
 (* section order of the FDEs: ascending, descending, rotated *)
-BsOrder(n, pat) == [k \in 1..n |-> CASE pat = 1 -> k [] pat = 2 -> n + 1 - k [] pat = 3 -> (k % n) + 1]
+BsOrder(n, pat) == Tup([k \in 1..n |-> CASE pat = 1 -> k [] pat = 2 -> n + 1 - k [] pat = 3 -> (k % n) + 1])
 BsTenc(n, pat) == <<3, 59, 27, 2, 12, 28>>[((n + 2 * pat) % 6) + 1]   \* udata4, datarel|sdata4, pcrel|sdata4, udata2, sdata8, pcrel|sdata8
 BsEB == Bases(B8(4096), None, None)
 BsHB == Bases(B8(8192), None, B8(8192))
@@ -161,18 +161,18 @@ BsEntries(l, pat) ==
     LET n   == Len(l)
         ord == BsOrder(n, pat)
         cie == [MkCie(32, 1, <<>>, 4, 1, -4, 8) EXCEPT !.ins = <<0, 0>>]
-    IN <<cie>> \o [k \in 1..n |-> MkFde(32, 1, B8(l[ord[k]]), B8(BsLen(l, ord[k], pat)), <<>>)]
+    IN <<cie>> \o Tup([k \in 1..n |-> MkFde(32, 1, B8(l[ord[k]]), B8(BsLen(l, ord[k], pat)), <<>>)])
 (* header whose table is sorted by address and points at the FDEs *)
 BsHdr(l, pat, offs, tenc) ==
     LET n    == Len(l)
         ord  == BsOrder(n, pat)
-        inv  == [j \in 1..n |-> CHOOSE k \in 1..n : ord[k] = j]     \* section index of the j-th address
+        inv  == Tup([j \in 1..n |-> CHOOSE k \in 1..n : ord[k] = j])     \* section index of the j-th address
         size == TabSize(tenc)
         t0   == 4 + 4 + 4
-        rows == [j \in 1..n |->
+        rows == Tup([j \in 1..n |->
                    [l |-> RawFor(tenc, B8(l[j]), BsHB, B8(t0 + (j - 1) * 2 * size), None),
                     p |-> RawFor(tenc, Add8(BsEB.section, B8(offs[inv[j] + 1])), BsHB,
-                                 B8(t0 + (j - 1) * 2 * size + size), None)]]
+                                 B8(t0 + (j - 1) * 2 * size + size), None)]])
     IN [ver |-> 1, penc |-> 27, praw |-> RawFor(27, BsEB.section, BsHB, B8(4), None),
         cenc |-> 3, count |-> B8(n), tenc |-> tenc, rows |-> rows]
 
@@ -230,7 +230,7 @@ SecEB == Bases(B8(4096), B8(8192), B8(12288))
 (* abstract symbols: <<"C", v>>, <<"F", k, r>> (k-th CIE of the section), <<"Z">>, <<"Z64">> *)
 Syms == {<<"C", v>> : v \in 1..3} \cup {<<"F", k, r>> : k \in 1..2, r \in 1..4} \cup {<<"Z">>, <<"Z64">>}
 SortedPositions(w) == LET S == {i \in DOMAIN w : w[i][1] = "C"} IN
-    [k \in 1..Cardinality(S) |-> CHOOSE i \in S : Cardinality({j \in S : j < i}) = k - 1]
+    Tup([k \in 1..Cardinality(S) |-> CHOOSE i \in S : Cardinality({j \in S : j < i}) = k - 1])
 SecWF(kind, w) ==
     LET cp == SortedPositions(w) IN
     /\ Len(cp) \in 1..2
@@ -239,12 +239,12 @@ SecWF(kind, w) ==
                                             /\ (kind = "eh" => cp[w[i][2]] < i)
 SecEntries(kind, w) ==
     LET cp == SortedPositions(w) IN
-    [i \in DOMAIN w |->
+    Tup([i \in DOMAIN w |->
         CASE w[i][1] = "C" -> IF kind = "eh" THEN EhCies[w[i][2]] ELSE DebugCies[w[i][2]]
           [] w[i][1] = "F" -> LET r == Ranges[w[i][3]] IN
                               [MkFde(r.fmt, cp[w[i][2]], B8(r.s), B8(r.n), r.ins) EXCEPT !.lsda = B8(r.s + 1000)]
           [] w[i][1] = "Z" -> [t |-> "zero"]
-          [] w[i][1] = "Z64" -> [t |-> "zero64"]]
+          [] w[i][1] = "Z64" -> [t |-> "zero64"]])
 SecInit == c \in [kind : {"eh", "debug"}, w : {<<>>}]
 SecNext == /\ Len(c.w) < MaxLen
            /\ \E s \in Syms :
@@ -262,7 +262,7 @@ BaseSets(asz) == << NoBases,
                     Bases(B8(4096), B8(8192), B8(12288)),
                     Bases(TopMinus(asz, 16), TopMinus(asz, 1), TopMinus(asz, 32)) >>
 (* boundary raw values per format *)
-P2(k) == Shl(One(8), k)
+P2(k) == Conc8(Shl(One(8), k))
 RawVals(f) ==
     CASE f = 0 -> {Zero(8), B8(1), P2(31), Ones(8)}
       [] f = 1 -> {Zero(8), B8(127), B8(128), P2(32), Ones(8)}
@@ -270,6 +270,14 @@ RawVals(f) ==
       [] f \in {2, 10} -> {Zero(8), B8(1), B8(32767), B8(32768), B8(65535)}
       [] f \in {3, 11} -> {Zero(8), B8(1), Dec(P2(31)), P2(31), Dec(P2(32))}
       [] f \in {4, 12} -> {Zero(8), B8(1), Dec(P2(63)), P2(63), Ones(8)}
+      [] OTHER -> {B8(1)}
+RawValsSlim(f) ==
+    CASE f = 0 -> {B8(1), Ones(8)}
+      [] f = 1 -> {B8(128), Ones(8)}
+      [] f = 9 -> {B8(64), FromInt(-65, 8), P2(63)}
+      [] f \in {2, 10} -> {B8(1), B8(32768), B8(65535)}
+      [] f \in {3, 11} -> {B8(1), P2(31), Dec(P2(32))}
+      [] f \in {4, 12} -> {B8(1), P2(63), Ones(8)}
       [] OTHER -> {B8(1)}
 PtrCtx == {"P", "L", "R"}
 (* the section: a plain leading CIE (so that the entry under test is not at *)
@@ -290,8 +298,9 @@ PtrNext ==
     \/ /\ c.stage = 1
        /\ \E ctx \in PtrCtx :
             IF IsValidEncoding(c.e) /\ c.e # PeOmit /\ PeApp(c.e) # PeAligned
-            THEN \E asz \in {2, 4, 8} : \E bi \in 1..4 : \E raw \in RawVals(PeFormat(c.e)) : \E le \in BOOLEAN :
-                   /\ (~le => bi = 3 /\ asz = 4)
+            THEN \E asz \in (IF Slim THEN {4, 8} ELSE {2, 4, 8}) : \E bi \in 1..4 :
+                 \E raw \in (IF Slim THEN RawValsSlim(PeFormat(c.e)) ELSE RawVals(PeFormat(c.e))) : \E le \in BOOLEAN :
+                   /\ (~le => bi = 3 /\ asz = 4 /\ ~Slim)
                    /\ (asz = 2 => bi \in {3, 4})
                    /\ c' = [stage |-> 2, e |-> c.e, ctx |-> ctx, asz |-> asz, bi |-> bi, raw |-> raw, le |-> le]
             ELSE c' = [stage |-> 2, e |-> c.e, ctx |-> ctx, asz |-> 8, bi |-> 3, raw |-> B8(1), le |-> TRUE]
@@ -334,17 +343,17 @@ HdrFor(penc, cenc, tenc, HB, offs) ==
         ok(e, pos) == IsValidEncoding(e) /\ e # PeOmit /\ PtrBase(e, HB, pos, None) # None
         raw(e, tgt, pos) == IF ok(e, pos) THEN RawFor(e, tgt, HB, pos, None) ELSE tgt
         fixed == PeFormat(tenc) \notin {1, 9}
-        rows == [j \in 1..3 |->
+        rows == Tup([j \in 1..3 |->
                    LET p1 == B8(t0 + (j - 1) * 2 * size) p2 == B8(t0 + (j - 1) * 2 * size + size) IN
                    [l |-> IF fixed THEN raw(tenc, B8(4096 + 16 * (j - 1)), p1) ELSE B8(4096 + 16 * (j - 1)),
-                    p |-> IF fixed THEN raw(tenc, B8(20480 + offs[HdrOrder[j]]), p2) ELSE B8(20480 + offs[HdrOrder[j]])]]
+                    p |-> IF fixed THEN raw(tenc, B8(20480 + offs[HdrOrder[j]]), p2) ELSE B8(20480 + offs[HdrOrder[j]])]])
     IN [ver |-> 1, penc |-> penc, praw |-> raw(penc, B8(20480), B8(4)), cenc |-> cenc, count |-> B8(3),
         tenc |-> tenc, rows |-> rows]
 HdrInit == c = [stage |-> 0]
 HdrNext ==
     \/ /\ c.stage = 0 /\ \E e \in 0..255 : c' = [stage |-> 1, e |-> e]      \* fan out over the workers
     \/ /\ c.stage = 1
-       /\ \E pos \in {"p", "c", "t", "v"} : \E bi \in 1..4 :
+       /\ \E pos \in {"p", "c", "t", "v"} : \E bi \in (IF Slim THEN 1..2 ELSE 1..4) :
             /\ (pos = "v" => c.e \in {0, 1, 2} /\ bi = 2)
             /\ ((~IsValidEncoding(c.e) \/ pos = "c") => bi = 2)
             /\ c' = [stage |-> 2, pos |-> pos, e |-> c.e, bi |-> bi]
@@ -363,14 +372,19 @@ HdrInv == c.stage = 2 =>
 (*=============================== "lem" ====================================*)
 (* the unrolled width-8 operators and the small-integer LEB128 encoders     *)
 (* agree with BV / Leb on a boundary grid                                   *)
-LemVals == {Zero(8), One(8), Ones(8), N8(255), N8(256), N8(65535), N8(65536), N8(2147483647),
-            Shl(One(8), 31), Shl(One(8), 32), Shl(One(8), 63), Sub(Shl(One(8), 63), One(8)),
-            Sub(Zero(8), N8(16)), <<255, 0, 255, 0, 255, 0, 255, 0>>, <<1, 2, 3, 4, 5, 6, 7, 8>>}
+LemVals == {Conc8(Zero(8)), Conc8(One(8)), Conc8(Ones(8)), N8(63), N8(64), N8(127), N8(128), N8(255), N8(256),
+            N8(65535), N8(65536), N8(2147483647),
+            P2(31), P2(32), P2(62), P2(63), Sub8(P2(63), N8(1)), Sub8(P2(62), N8(1)),
+            Sub8(N8(0), N8(16)), Sub8(N8(0), N8(64)), Sub8(N8(0), N8(65)), Sub8(N8(0), P2(62)), Sub8(Sub8(N8(0), P2(62)), N8(1)),
+            <<255, 0, 255, 0, 255, 0, 255, 0>>, <<1, 2, 3, 4, 5, 6, 7, 8>>}
 LemNats == {0, 1, 63, 64, 127, 128, 255, 256, 16383, 16384, 65535, 65536, 305419896, 2147483647}
 LemInv ==
     /\ \A a \in LemVals : \A b \in LemVals :
           /\ Add8(a, b) = Add(a, b) /\ Sub8(a, b) = Sub(a, b)
           /\ ULt8(a, b) = ULt(a, b) /\ ULe8(a, b) = ULe(a, b)
+    /\ \A a \in LemVals : /\ AllowedU(EncU8(a), 8, 10) = {Ok(a, Len(EncU8(a)))}
+                           /\ AllowedS(EncS8(a)) = {Ok(a, Len(EncS8(a)))}
+                           /\ Len(EncU8(a)) <= 10 /\ Len(EncS8(a)) <= 10
     /\ \A n \in LemNats : /\ N8(n) = FromNat(n, 8)
                            /\ UlebNat(n) = EncU(FromNat(n, 8))
                            /\ SlebInt(n) = EncS(FromNat(n, 8))
